@@ -417,6 +417,7 @@ fn run_c18(args: &Args) -> i32 {
         "items_preserved_total": st["items_preserved"], "items_appended_total": st["items_appended"],
         "single_item_deletions": st["split_deletions"],
         "faults_fired": st["faults_fired"], "torn_actions_file_counted_not_alarmed": st["torn_actions_file"],
+        "failing_stat_treated_as_missing_file_counted_not_alarmed": st["stat_fault_runs"],
         "compiles": st["compiles"],
         "runs_per_hour": if wall > 0.0 { (histories as f64 / wall * 3600.0) as u64 } else { 0 },
         "components": {
